@@ -159,8 +159,20 @@ def run(R):
     # ---- NOTIFY
     comp = fb.methods.get("_computed")
     R.need(comp is not None, "anchor vanished: FutureBase._computed")
+    # the subscriber list belongs to the future for its whole life: only constructors assign it
+    for f in repo.all_functions():
+        for recv, attr, node in q.attr_stores(f.node):
+            if attr != "on_computed" or recv is None:
+                continue
+            if recv == "self" and (f.cls is None or not f.cls.is_subclass_of(fb)):
+                continue
+            R.check(f.name == "__init__" or (f.parent is None and f.cls is None and f.name.startswith("_init")), "C10.NOTIFY", "%s:on_computed-store" % f.qualname, R.site(f, node),
+                    "on_computed is assigned only while the future is constructed",
+                    "%s replaces a future's on_computed hook after construction: subscribers registered before (or after a reset_unsafe()) are never notified of a later completion" % f.qualname)
     trig = kit.call_sites(comp, lambda c: (q.call_name(c) or "").startswith("self.on_computed"))
-    R.need(trig, "idiom: FutureBase._computed no longer triggers on_computed")
+    if not trig:
+        R.violation("C10.NOTIFY", comp.qualname + ":trigger", R.site(comp),
+                    "FutureBase._computed does not trigger self.on_computed: completion does not notify the subscribers held by the future")
     for n, c in trig:
         nm = q.call_name(c)
         R.check(nm == "self.on_computed.safe_trigger" and len(c.args) == 1 and q.src(c.args[0]) == "self", "C10.NOTIFY",
@@ -212,6 +224,12 @@ def run(R):
                     cfg.fmt_path(p) if p else None)
     rie = fb.methods.get("raise_if_error")
     R.need(rie is not None, "anchor vanished: FutureBase.raise_if_error")
+    tests = [n for n in ast.walk(rie.node) if isinstance(n, ast.If)]
+    okt = len(tests) == 1 and q.atom_test(tests[0].test) == ("isnone", "self._error", False)
+    R.check(okt, "C10.COMPUTE-ONCE", rie.qualname + ":identity", R.site(rie),
+            "raise_if_error tests `self._error is not None` (identity)",
+            "raise_if_error tests `%s`: a stored error that is falsy (an exception class defining __len__/__bool__) is not raised by value() although error() reports it"
+            % (q.src(tests[0].test) if tests else "nothing"))
     rr = [c for c in q.calls(rie.node) if (q.call_name(c) or "").endswith("reraise") and c.args and q.src(c.args[0]) == "self._error"]
     raises = [n for n in ast.walk(rie.node) if isinstance(n, ast.Raise) and n.exc is not None and q.src(n.exc) == "self._error"]
     R.check(bool(rr or raises), "C10.COMPUTE-ONCE", rie.qualname, R.site(rie),
